@@ -104,4 +104,6 @@ var jsStrReplacementTable = []string{
 	'<':  `\u003c`,
 	'>':  `\u003e`,
 	'\\': `\\`,
+	// Stop "${" from opening an interpolation when the value is placed inside a template literal.
+	'$': `\u0024`,
 }
